@@ -1,13 +1,14 @@
 package checks
 
 import (
+	"context"
 	"crypto/sha1"
 	"encoding/hex"
-	"context"
 	"errors"
 	"fmt"
-	"strings"
 	"reflect"
+	"strconv"
+	"strings"
 	"time"
 
 	"github.com/inbucket/inbucket/v3/pkg/config"
@@ -68,10 +69,10 @@ var storeBoxes = func() []string {
 
 // storeRun is one live store plus its model and the ids ever returned.
 type storeRun struct {
-	h     *sys.StoreH
-	mo    *model.Store
-	ids   map[string][]string // mailbox -> ids ever returned, in arrival order
-	clock int64
+	h       *sys.StoreH
+	mo      *model.Store
+	ids     map[string][]string // mailbox -> ids ever returned, in arrival order
+	clock   int64
 	evicted int // evictions the model performed so far (part of the dedup key: hidden-state proxy)
 	removed int
 }
@@ -106,7 +107,7 @@ func (r *storeRun) resolve(mb, ref string) (id string, m *model.Msg, kind string
 	case "":
 		return "", nil, "empty-id"
 	}
-	k := int(ref[1] - '0')
+	k, _ := strconv.Atoi(ref[1:])
 	if k > len(r.ids[mb]) {
 		return "never-" + ref[1:], nil, "unknown-id"
 	}
